@@ -259,6 +259,10 @@ func (fc *fnCtx) applyCall(st *State, ce *callee, c *ssa.CallCommon, args []Val,
 			fc.oblige(st, kind, fc.evalClause(env, r), pos, uniq(append([]string{"C17"}, fc.propsAll...)), r.Text)
 			continue
 		}
+		if fc.con != nil && fc.con.Partial {
+			fc.assume(st, fc.evalAssume(env, r))
+			continue
+		}
 		fc.oblige(st, kind, fc.evalClause(env, r), pos, nil, r.Text)
 	}
 	// result
@@ -292,10 +296,43 @@ func (fc *fnCtx) applyCall(st *State, ce *callee, c *ssa.CallCommon, args []Val,
 	for _, e := range con.Defines {
 		fc.assume(st, fc.evalAssume(post, e))
 	}
+	for _, e := range con.TEnsures {
+		fc.assume(st, fc.evalAssume(post, e))
+		fc.g.trustedUsed[ce.name+" (tensures: "+e.Text+")"] = true
+	}
+	if con.TrustedFrame {
+		fc.g.trustedUsed[ce.name+" (frame assumed)"] = true
+	}
 	if con.NoReturn {
 		fc.assume(st, "false")
 	}
 	return res
+}
+
+// enclosingLoopVars: the loop-carried variables (current values) of the loops that contain the block being executed.
+func (fc *fnCtx) enclosingLoopVars() map[string]Val {
+	m := map[string]Val{}
+	if fc.curBlock == nil {
+		return m
+	}
+	for _, h := range fc.loopOrder {
+		li := fc.loops[h]
+		if !li.body[fc.curBlock] {
+			continue
+		}
+		var phis []*ssa.Phi
+		for _, ins := range h.Instrs {
+			if phi, ok := ins.(*ssa.Phi); ok {
+				phis = append(phis, phi)
+			} else {
+				break
+			}
+		}
+		for k, v := range fc.loopVarMap(phis, func(p *ssa.Phi) string { return fc.vals[p].T }) {
+			m[k] = v // inner loops (later in order) shadow outer ones
+		}
+	}
+	return m
 }
 
 // baseName: the function name after the last dot ("(*CodeBuilder).handleCodeError" -> "handleCodeError").
@@ -338,6 +375,7 @@ func (fc *fnCtx) callSiteClauses(st *State, ce *callee, args []Val, pos token.Po
 		}
 		env := fc.envAt(st, fc.entry)
 		env.useLocals = true
+		env.loopVars = fc.enclosingLoopVars()
 		// the callee's arguments are visible as arg_<param>
 		vars := map[string]Val{}
 		for k, v := range env.vars {
